@@ -260,7 +260,9 @@ def main():
     for n in sorted(os.listdir(a.dir)):
         cj = os.path.join(a.dir, n, "case.json")
         if os.path.exists(cj):
-            cases.append((os.path.join(a.dir, n), json.load(open(cj))))
+            c = json.load(open(cj))
+            if c.get("kind") in ("trace", "walk"):   # "design" cases belong to tools/vacuity.py
+                cases.append((os.path.join(a.dir, n), c))
     # one case per (property, module[, shape/proto])
     pick = {}
     for d, c in cases:
